@@ -204,7 +204,7 @@ class Kernel(Family):
         out = []
         for rule in ("trapezoid", "rectangle"):
             for N, alpha in ([(3, 1), (4, 1), (5, 1), (4, 2)] if tier == "quick" else
-                             [(3, 1), (4, 1), (5, 1), (6, 1), (3, 2), (4, 2), (5, 2), (4, 3), (4, "1/2")]):
+                             [(3, 1), (4, 1), (5, 1), (6, 1), (3, 2), (4, 2), (4, 3), (4, "1/2")]):
                 out.append({"N": N, "rule": rule, "alpha": str(alpha)})
         return out
 
